@@ -6,6 +6,7 @@
 import Vise.Driver.Codec
 import Vise.Driver.Cache
 import Vise.Driver.Render
+import Vise.Driver.Engine
 
 open Vise.Driver
 
@@ -16,6 +17,7 @@ def main (args : List String) : IO UInt32 := do
   | ["codec"] => loop stdin stdout () codecStep; return 0
   | ["cache"] => loop stdin stdout () cacheStep; return 0
   | ["render"] => loop stdin stdout () renderStep; return 0
+  | ["engine"] => loop stdin stdout () engineStep; return 0
   | _ =>
     IO.eprintln "usage: visemodel <suite>"
     return 2
